@@ -405,7 +405,9 @@ func rowCount(x gen.Expr, scope Scope) int {
 	v := Eval(x, &Env{Scope: scope})
 	n, ok := v.(int64)
 	if !ok || n < 0 {
-		failf("row count is not a non-negative integer: %s", prim.Show(v))
+		// the properties speak of row limits; what a negative or non-integer
+		// count means is not stated
+		dontCare("row count (negative or not an integer)")
 	}
 	return int(n)
 }
